@@ -286,6 +286,12 @@ class CircuitTemplate(AbstractBaseTemplate):
             Pointer to the `CircuitTemplate` instance this method was called from.
         """
 
+        # an edited template is no longer the model that its file describes: it leaves the template cache, so that a later
+        # `from_yaml` of the same path reads the file again instead of returning this (edited) object
+        from pyrates.frontend.template import template_cache
+        for key in [key for key, cached in template_cache.items() if cached is self]:
+            del template_cache[key]
+
         if node_vars is None:
             node_vars = {}
         if edge_vars is None:
